@@ -841,3 +841,46 @@ def lock_join_order(L, repo, rule):
                  "/".join(sorted(held)), canon(w.items[0].context_expr)), "no reachable join()", bad, not bad, w.lineno)
     L.floor(rule, "lock regions of the toolkit", n_regions, 1)
     L.extra["%s_thread_locks" % rule] = sorted(thread_locks)
+
+
+# ---------------------------------------------------------------- one-shot iterators kept as "constants"
+
+def oneshot_constants(L, repo, rule, modnames):
+    """A generator expression (or map / filter / zip / iter / reversed / enumerate object) bound at module or class level
+    is consumed by its first use: a membership test or loop in a function sees its elements once per process, every
+    later call sees an exhausted iterator (`x in LENS` is True for the first padded burst only).  Every such binding
+    that a function of the listed modules reads is reported; a tuple / list / set / frozenset built from it is fine."""
+    import ast as _ast
+    LAZY = {"map", "filter", "zip", "iter", "reversed", "enumerate"}
+    n = 0
+    for mn in modnames:
+        if not repo.has_mod(mn):
+            continue
+        m = repo.mod(mn)
+        holders = [(None, m.tree.body)] + [(c.name, c.body) for c in m.tree.body if isinstance(c, _ast.ClassDef)]
+        lazy = {}
+        for owner, body in holders:
+            for st in body:
+                if isinstance(st, _ast.Assign) and len(st.targets) == 1 and isinstance(st.targets[0], _ast.Name):
+                    v = st.value
+                    if isinstance(v, _ast.GeneratorExp) or (isinstance(v, _ast.Call) and isinstance(v.func, _ast.Name) and v.func.id in LAZY):
+                        lazy[(owner, st.targets[0].id)] = st
+        n += 1
+        for (owner, nm), st in sorted(lazy.items(), key=lambda kv: kv[1].lineno):
+            readers = []
+            for m2 in repo.tk_modules():
+                for fd in _ast.walk(m2.tree):
+                    if not isinstance(fd, _ast.FunctionDef):
+                        continue
+                    for x in _ast.walk(fd):
+                        if isinstance(x, _ast.Name) and x.id == nm and isinstance(x.ctx, _ast.Load) and owner is None \
+                                and (m2 is m or not any(isinstance(y, _ast.Name) and y.id == nm and isinstance(y.ctx, _ast.Store)
+                                                        for y in _ast.walk(m2.tree))):
+                            readers.append("%s.%s" % (m2.name, fd.name))        # (the flat toolkit namespace: `from m import *`)
+                        if isinstance(x, _ast.Attribute) and x.attr == nm and isinstance(x.ctx, _ast.Load) and owner is not None:
+                            readers.append("%s.%s" % (m2.name, fd.name))
+            L.ob(rule, m.rel, "%s%s" % (owner + "." if owner else "", nm),
+                 "`%s` is bound once to a one-shot iterator (%s): no function reads it (its elements are gone after the first use)" % (
+                     nm, "generator expression" if isinstance(st.value, _ast.GeneratorExp) else st.value.func.id + "()"),
+                 "no reader", sorted(set(readers))[:4], not readers, st.lineno)
+    L.floor(rule, "modules scanned for one-shot iterator constants", n, 1)
